@@ -35,6 +35,9 @@ GMETH = {'enter_region': 'TD_enter_region', 'leave_region': 'TD_leave_region', '
          'reset': 'MP_reset', 'get': 'MP_get', 'set_deleter': 'X_set_deleter'}
 G = dict(methods=GMETH, self_calls={'reset': 'gp_reset'})
 
+UW = ['havoc_td.0:7', 'havoc_heap.0:7', 'build_chain.0:4', 'chain_reach.0:4', 'reach_list.0:8', 'h_local.0:7', 'h_local.1:7',
+      'sg_process_local_nodes.0:7', 'sg_process_chunk_nodes.0:3', 'sg_process_global_nodes.0:2', 'sg_process_global_nodes.1:4',
+      'sg_process_global_nodes.2:2', 'sg_process_global_nodes.3:2']
 UNIT = dict(
   title='stamp_it: guard_ptr operations, thread_data enter/leave_region, retire side (add_retired_node, process_local_nodes, process_global_nodes)',
   properties=['C01', 'C02'],
@@ -109,27 +112,29 @@ UNIT = dict(
          must_fire={'method:add_retired_node': 1, 'self_call:reset': 1, 'method:get': 1, 'method:set_deleter': 1}),
   ],
   runs=[
-    dict(id='enter', entry='h_enter', defs={'XV_STUB_PROCESS': 1}, unwind=8, cls='unbounded'),
-    dict(id='leave', entry='h_leave', defs={'XV_STUB_PROCESS': 1}, unwind=8, cls='unbounded', note='process_local/global_nodes replaced by their contracts'),
-    dict(id='add_retired', entry='h_add_retired', defs={'XV_STUB_PROCESS': 1}, unwind=8, cls='unbounded', note='local list abstract: first node, last node, length'),
-    dict(id='local', entry='h_local', defs={'LL': 3}, unwind=8, cls='shape-complete', note='local list of 0..3 nodes, arbitrary stamps'),
-    dict(id='local5', entry='h_local', defs={'LL': 5, 'NN': 6}, unwind=8, tiers=['thorough'], cls='shape-complete', note='local list of 0..5 nodes'),
-    dict(id='global', entry='h_global', unwind=8, cls='shape-complete',
+    dict(id='enter', entry='h_enter', defs={'XV_STUB_PROCESS': 1}, unwindset=UW, cls='unbounded'),
+    dict(id='leave', entry='h_leave', defs={'XV_STUB_PROCESS': 1}, unwindset=UW, cls='unbounded', note='process_local/global_nodes replaced by their contracts'),
+    dict(id='add_retired', entry='h_add_retired', defs={'XV_STUB_PROCESS': 1}, unwindset=UW, cls='unbounded', note='local list abstract: first node, last node, length'),
+    dict(id='local', entry='h_local', defs={'LL': 3}, unwindset=UW, cls='shape-complete', note='local list of 0..3 nodes, arbitrary stamps'),
+    dict(id='local5', entry='h_local', defs={'LL': 5}, unwindset=UW, tiers=['thorough'], cls='shape-complete', note='local list of 0..5 nodes'),
+    dict(id='global', entry='h_global', unwindset=UW, cls='shape-complete',
          note='chain of up to 3 chunks (local list + two global chunks) of up to 2 nodes, arbitrary stamps; the goto-restart loop is cut by invariant RESTART (any number of passes), tail stamp re-read arbitrarily (monotone)'),
-    dict(id='gp_ctor', entry='h_gp_ctor', unwind=8, cls='unbounded'),
-    dict(id='gp_assign', entry='h_gp_assign', unwind=8, cls='unbounded'),
-    dict(id='gp_reset', entry='h_gp_reset', unwind=8, cls='unbounded'),
-    dict(id='gp_reclaim', entry='h_gp_reclaim', unwind=8, cls='unbounded'),
-    dict(id='gp_acquire', entry='h_gp_acquire', unwind=8, cls='unbounded'),
-    dict(id='gp_acquire_int', entry='h_gp_acquire', mode='INT', unwind=8, cls='unbounded', note='other threads store arbitrary values into p between the two loads'),
+    dict(id='gp_ctor', entry='h_gp_ctor', unwindset=UW, cls='unbounded'),
+    dict(id='gp_assign', entry='h_gp_assign', unwindset=UW, cls='unbounded'),
+    dict(id='gp_reset', entry='h_gp_reset', unwindset=UW, cls='unbounded'),
+    dict(id='gp_reclaim', entry='h_gp_reclaim', unwindset=UW, cls='unbounded'),
+    dict(id='gp_acquire', entry='h_gp_acquire', unwindset=UW, cls='unbounded'),
+    dict(id='gp_acquire_int', entry='h_gp_acquire', mode='INT', unwindset=UW, cls='unbounded', note='other threads store arbitrary values into p between the two loads'),
   ],
   obligations={
     'stamp.region.balanced': dict(deciding=True, text='region_entries changes by exactly (number of non-empty guards after) - (before) on every path of every guard operation and never underflows; enter_region pushes the control block only on 0->1, leave_region removes it only on 1->0'),
     'stamp.acquire.enter_before_load': dict(deciding=True, text='acquire/acquire_if_equal: the pointer kept is the value of the last load of p, with the caller\'s order, and that load ran with region_entries >= 1 (enter_region, if needed, before it)'),
     'stamp.retire.stamped_with_head': dict(deciding=True, text='add_retired_node stamps the node with the value of head_stamp() read during the call (exactly one read)'),
     'stamp.free.below_tail': dict(deciding=True, text='delete_self() only on nodes whose stamp is <= a tail_stamp() value read earlier in the same call (the code\'s comparison is stamp <= tail_stamp)'),
+    'stamp.global.restart_progress': dict(deciding=True, text='process_global_nodes jumps back to restart only after a pass that deleted at least one node (so the number of passes is bounded by the number of nodes)'),
     'stamp.conserve': dict(deciding=True, text='C02: add_retired_node / process_local_nodes / process_global_nodes (including the goto-restart chunk loop) / leave_region conserve the multiset of retired nodes: every node is deleted exactly once or kept exactly once (local list or the chunk list handed back); nodes outside are untouched; list bookkeeping (first/prev/count) stays exact'),
   },
   loop_obligation={'RESTART': 'stamp.conserve'},
-  canaries=[],
+  replays={'stamp.conserve': dict(src='replay_retire.cpp'), 'stamp.free.below_tail': dict(src='replay_retire.cpp')},
+  canaries=['add_retired.append', 'add_retired.first', 'add_retired.threshold', 'enter.first_block', 'enter.nested', 'enter.outermost', 'global.all_deleted', 'global.deleted', 'global.kept', 'global.nothing', 'global.restart_taken', 'global.three_chunks_back', 'gp_acquire.entered', 'gp_acquire.first_load_failed', 'gp_acquire.if_equal', 'gp_acquire.kept_region', 'gp_acquire.plain', 'gp_acquire_int.second_load_failed', 'gp_copy_assign.done', 'gp_copy_assign.self', 'gp_copy_ctor.done', 'gp_ctor.nonnull', 'gp_ctor.null', 'gp_move_assign.done', 'gp_move_assign.self', 'gp_move_ctor.done', 'gp_reclaim.done', 'gp_reset.nonnull', 'gp_reset.null', 'leave.hand_over', 'leave.keep_local', 'leave.nested', 'leave.was_last', 'local.all_deleted', 'local.deleted', 'local.empty', 'local.kept', 'local.prefix'],
 )
